@@ -321,7 +321,8 @@ class JsonSchemaGenerator:
                 continue
             properties[name] = value
             if field.dependencies:
-                dependent_required[name] = field.dependencies
+                # a JSON array (sorted to stay identical), not a Python set
+                dependent_required[name] = sorted(field.dependencies)
             if field.is_required(options or self.options):
                 # will count options.ignore_required in
                 required.append(name)
